@@ -219,7 +219,7 @@ theorem ite_or' {α : Type} (c : Prop) [Decidable c] (a b a' b' : α) (ha : a = 
 theorem u8_eq (n : Nat) : u8 n = UInt8.ofNat n := rfl
 
 theorem startTx_sf (s : State) (r : Req) (allowed : Nat) (p : Bytes) (hv : s.cfg.valid = true)
-    (hf : Feeds r p) (h0 : r.consumed = 0) (h1 : 1 ≤ p.length)
+    (hf : Feeds r p) (h0 : r.consumed = 0) (h1 : 1 ≤ p.length) (hen : p.length ≤ r.src.length)
     (hsf : sfShort (TxCfg.of s.cfg s.addr) p.length ∨ sfEscape (TxCfg.of s.cfg s.addr) p.length) :
     ∃ d0, segment (TxCfg.of s.cfg s.addr) p = [d0] ∧
       (s.startTx r allowed =
@@ -233,7 +233,7 @@ theorem startTx_sf (s : State) (r : Req) (allowed : Nat) (p : Bytes) (hv : s.cfg
   have hpre := hvt.pre
   have hsz := hf.size
   have hrem : r.size ≤ r.remaining := by simp [Req.remaining, h0]
-  have hca := consumeActive_ok s r r.size true p hf hrem
+  have hca := consumeActive_ok s r r.size true p hf hrem (by rw [hf.size]; exact hen)
   rw [h0, List.drop_zero, hsz, List.take_length] at hca
   unfold startTx
   simp only [txPrefixLen, Req.remaining, h0, Nat.sub_zero, startTx_match_bigMin, sizeOnFirst_eq, hsz]
@@ -271,7 +271,7 @@ theorem ffHeader_eq (n : Nat) (hn : n < 4294967296) :
 
 theorem startTx_ff (s : State) (r : Req) (allowed : Nat) (p : Bytes) (hv : s.cfg.valid = true)
     (hf : Feeds r p) (h0 : r.consumed = 0) (hn : p.length < 4294967296)
-    (hff : NeedsFF (TxCfg.of s.cfg s.addr) p.length) :
+    (hff : NeedsFF (TxCfg.of s.cfg s.addr) p.length) (hen : ffRoom (TxCfg.of s.cfg s.addr) p.length ≤ r.src.length) :
     ∃ d0, (segment (TxCfg.of s.cfg s.addr) p)[0]? = some d0 ∧
       (s.startTx r allowed =
           ({ s with active := some (Req.adv r (ffRoom (TxCfg.of s.cfg s.addr) p.length)),
@@ -290,7 +290,7 @@ theorem startTx_ff (s : State) (r : Req) (allowed : Nat) (p : Bytes) (hv : s.cfg
   have hsz := hf.size
   have hlt := ffRoom_lt _ _ hff hvt
   have hrem : ffRoom (TxCfg.of s.cfg s.addr) p.length ≤ r.remaining := by simp [Req.remaining, h0, hsz]; omega
-  have hca := consumeActive_ok { s with txFrameLen := p.length } r _ true p hf hrem
+  have hca := consumeActive_ok { s with txFrameLen := p.length } r _ true p hf hrem hen
   rw [h0, List.drop_zero] at hca
   obtain ⟨hs1, hs2⟩ := hff
   have hs2' : ¬ (s.addr.tx.txPrefix.length + 2 + p.length ≤ s.cfg.txDl) := fun hh => hs2 ⟨hs1, hh⟩
@@ -330,7 +330,8 @@ theorem transmitCf_eq (s : State) (allowed : Nat) (p : Bytes) (k : Nat) (r : Req
     (hv : s.cfg.valid = true) (hact : s.active = some r) (hbs : s.remoteBs = some rbs) (hf : Feeds r p)
     (hk : 1 ≤ k) (hff : NeedsFF (TxCfg.of s.cfg s.addr) p.length)
     (hc : r.consumed = carried (TxCfg.of s.cfg s.addr) p.length k) (hlt : r.consumed < p.length)
-    (hseq : s.txSeq = k % 16) :
+    (hseq : s.txSeq = k % 16)
+    (hen : min (cfRoom (TxCfg.of s.cfg s.addr)) (p.length - r.consumed) ≤ r.src.length) :
     ∃ d, (segment (TxCfg.of s.cfg s.addr) p)[k]? = some d ∧
       (s.transmitCf allowed = (s, none, false) ∨
        (carried (TxCfg.of s.cfg s.addr) p.length (k + 1) = p.length ∧
@@ -365,7 +366,7 @@ theorem transmitCf_eq (s : State) (allowed : Nat) (p : Bytes) (k : Nat) (r : Req
     by_cases hal : min (cfRoom (TxCfg.of s.cfg s.addr)) (p.length - r.consumed) ≤ allowed
     · rw [if_pos hal]
       have hca := consumeActive_ok s r (min (cfRoom (TxCfg.of s.cfg s.addr)) (p.length - r.consumed)) false p hf
-        (by rw [hrm]; omega)
+        (by rw [hrm]; omega) hen
       rw [hca]
       simp only []
       generalize hm : min (cfRoom (TxCfg.of s.cfg s.addr)) (p.length - r.consumed) = m at *
@@ -631,9 +632,9 @@ theorem handleFc_inv (s : State) (f : FcFrame) (r0 : Req) (p : Bytes) (k : Nat) 
 theorem Req.adv_adv (r : Req) (a b : Nat) : Req.adv (Req.adv r a) b = Req.adv r (a + b) := by
   simp [Req.adv, List.drop_drop, Nat.add_assoc]
 
-theorem Fresh.feeds_adv {r0 : Req} {p : Bytes} (h : Fresh r0 p) (c : Nat) (hc : c ≤ p.length) :
-    Feeds (Req.adv r0 c) p :=
-  (h.1.consume c true (by simp [Req.remaining, h.2, h.1.size]; exact hc)).2
+theorem Fresh.feeds_adv {r0 : Req} {p : Bytes} (h : Fresh r0 p) (c : Nat) (hc : c ≤ p.length)
+    (hs : c ≤ r0.src.length) : Feeds (Req.adv r0 c) p :=
+  (h.1.consume c true (by simp [Req.remaining, h.2, h.1.size]; exact hc) hs).2
 
 theorem Fresh.adv_consumed {r0 : Req} {p : Bytes} (h : Fresh r0 p) (c : Nat) : (Req.adv r0 c).consumed = c := by
   simp [Req.adv, h.2]
@@ -673,7 +674,8 @@ theorem length_of_getElem? {α : Type} (l : List α) (k : Nat) (d : α) (h1 : l[
   omega
 
 theorem txFsm_prog_cf (s : State) (allowed : Nat) (r0 : Req) (p : Bytes) (k : Nat)
-    (hv : s.cfg.valid = true) (hfr : Fresh r0 p) (hi : TxProg s r0 p k) (hst : s.txState = .transmitCf) :
+    (hv : s.cfg.valid = true) (hfr : Fresh r0 p) (hi : TxProg s r0 p k) (hst : s.txState = .transmitCf)
+    (hen : carried (TxCfg.of s.cfg s.addr) p.length (k + 1) ≤ r0.src.length) :
     Advance s (s.transmitCf allowed).1 (s.transmitCf allowed).2.1 r0 p k := by
   obtain ⟨hk, hff, hlt, hact, hlen, hseq, hstate⟩ := hi
   have hrb : s.remoteBs.isSome = true := by
@@ -684,9 +686,11 @@ theorem txFsm_prog_cf (s : State) (allowed : Nat) (r0 : Req) (p : Bytes) (k : Na
   have hvt := valid_of s.cfg s.addr hv
   generalize hc : carried (TxCfg.of s.cfg s.addr) p.length k = c at *
   have hcons := hfr.adv_consumed c
-  obtain ⟨d, hd, hcases⟩ := transmitCf_eq s allowed p k (Req.adv r0 c) rbs hv hact hbs
-    (hfr.feeds_adv c (by omega)) hk hff (by rw [hcons, hc]) (by rw [hcons]; exact hlt) hseq
   have hstep := carried_step (TxCfg.of s.cfg s.addr) p.length k hk (by omega)
+  have hsrc : (Req.adv r0 c).src.length = r0.src.length - c := by simp [Req.adv]
+  obtain ⟨d, hd, hcases⟩ := transmitCf_eq s allowed p k (Req.adv r0 c) rbs hv hact hbs
+    (hfr.feeds_adv c (by omega) (by omega)) hk hff (by rw [hcons, hc]) (by rw [hcons]; exact hlt) hseq
+    (by rw [hcons, hsrc]; omega)
   have hmsg : frameMsg s.cfg s.addr (s.addr.tx.txId .physical) d = msgFor s r0 p d := by
     simp [msgFor, arbId, hff]
   rw [hmsg, hcons] at hcases
@@ -737,7 +741,8 @@ theorem carried_one_lt (tc : TxCfg) (n : Nat) (hv : ValidTx tc) (hff : NeedsFF t
   simp [carried]; omega
 
 theorem txFsm_inv (s : State) (allowed : Nat) (r0 : Req) (p : Bytes) (k : Nat)
-    (hv : s.cfg.valid = true) (hfr : Fresh r0 p) (hi : TxInv s r0 p k) :
+    (hv : s.cfg.valid = true) (hfr : Fresh r0 p) (hi : TxInv s r0 p k)
+    (hen : 1 ≤ k → carried (TxCfg.of s.cfg s.addr) p.length (k + 1) ≤ r0.src.length) :
     Advance s (txFsm s allowed).1 (txFsm s allowed).2.1 r0 p k := by
   have hvt := valid_of s.cfg s.addr hv
   rcases hi with ⟨hk, d0, hd0, hsb, ⟨hst, hseg, hnff, hact⟩ | ⟨hst, hff, hact, hlen, hseq⟩⟩ | hprog
@@ -770,7 +775,7 @@ theorem txFsm_inv (s : State) (allowed : Nat) (r0 : Req) (p : Bytes) (k : Nat)
       exact Or.inl ⟨rfl, Or.inr hprog, Quiet.refl s⟩
     · have : txFsm s allowed = s.transmitCf allowed := by unfold txFsm; rw [hst]
       rw [this]
-      exact txFsm_prog_cf s allowed r0 p k hv hfr hprog hst
+      exact txFsm_prog_cf s allowed r0 p k hv hfr hprog hst (hen hprog.1)
 
 /-- configuration and address unchanged, log only extended -/
 structure Ext (s s' : State) : Prop where
@@ -890,7 +895,8 @@ theorem Advance.wrap {s s1 : State} {out : Option CanMsg} {r0 : Req} {p : Bytes}
     exact Or.inr (Or.inr ⟨d, hd, hl, rfl, ⟨hf.cfg, hf.addr, hf.exc, hf.txState, hf.active, hf.standby, hf.log⟩⟩)
 
 theorem txRest_inv (s : State) (a : Nat) (r0 : Req) (p : Bytes) (k : Nat)
-    (hv : s.cfg.valid = true) (hfr : Fresh r0 p) (hexc : s.exc = none) (hi : TxInv s r0 p k) :
+    (hv : s.cfg.valid = true) (hfr : Fresh r0 p) (hexc : s.exc = none) (hi : TxInv s r0 p k)
+    (hen : 1 ≤ k → carried (TxCfg.of s.cfg s.addr) p.length (k + 1) ≤ r0.src.length) :
     Advance s (txRest s a).1 (txRest s a).2.1 r0 p k := by
   obtain ⟨c, hact⟩ := hi.active
   unfold txRest
@@ -900,7 +906,7 @@ theorem txRest_inv (s : State) (a : Nat) (r0 : Req) (p : Bytes) (k : Nat)
   rw [hact] at hnd
   simp only [] at hnd
   simp only [Bool.and_assoc, hnd, Bool.and_false, Bool.false_eq_true, if_false]
-  have h := txFsm_inv s a r0 p k hv hfr hi
+  have h := txFsm_inv s a r0 p k hv hfr hi hen
   generalize txFsm s a = X at h ⊢
   obtain ⟨s1, out, imm⟩ := X
   exact Advance.wrap imm hexc h
@@ -938,17 +944,19 @@ def Outcome (s s' : State) (out : Option CanMsg) (r0 : Req) (p : Bytes) (k : Nat
   Advance s s' out r0 p k ∨ Failed s s' r0
 
 theorem txTail_inv (s : State) (a : Nat) (r0 : Req) (p : Bytes) (k : Nat)
-    (hv : s.cfg.valid = true) (hfr : Fresh r0 p) (hexc : s.exc = none) (hi : TxInv s r0 p k) :
+    (hv : s.cfg.valid = true) (hfr : Fresh r0 p) (hexc : s.exc = none) (hi : TxInv s r0 p k)
+    (hen : 1 ≤ k → carried (TxCfg.of s.cfg s.addr) p.length (k + 1) ≤ r0.src.length) :
     Outcome s (txTail s a).1 (txTail s a).2.1 r0 p k := by
   obtain ⟨c, hact⟩ := hi.active
   unfold txTail
   split
   · exact Or.inr ((Aborted.stop s _ r0 c hact).failed_of_ext (txRest_idle_ext _ a (by simp)))
-  · exact Or.inl (txRest_inv s a r0 p k hv hfr hexc hi)
+  · exact Or.inl (txRest_inv s a r0 p k hv hfr hexc hi hen)
 
 theorem txMain_inv (s : State) (r0 : Req) (p : Bytes) (k : Nat)
     (hv : s.cfg.valid = true) (hfr : Fresh r0 p) (hexc : s.exc = none)
-    (hi : TxInv s r0 p k) :
+    (hi : TxInv s r0 p k)
+    (hen : 1 ≤ k → carried (TxCfg.of s.cfg s.addr) p.length (k + 1) ≤ r0.src.length) :
     Outcome s (txMain s).1 (txMain s).2.1 r0 p k := by
   obtain ⟨c, hact⟩ := hi.active
   unfold txMain
@@ -961,7 +969,7 @@ theorem txMain_inv (s : State) (r0 : Req) (p : Bytes) (k : Nat)
     · exact Or.inr (Failed.of_quiet hq0 h)
   apply lift
   cases hfc : s.lastFc with
-  | none => dsimp only; exact txTail_inv { s with lastFc := none } _ r0 p k hv hfr hexc hi1
+  | none => dsimp only; exact txTail_inv { s with lastFc := none } _ r0 p k hv hfr hexc hi1 hen
   | some f =>
     dsimp only
     split
@@ -974,11 +982,15 @@ theorem txMain_inv (s : State) (r0 : Req) (p : Bytes) (k : Nat)
     · rcases handleFc_inv { s with lastFc := none } f r0 p k hi1 with ⟨hi2, hq⟩ | hab
       · have hv2 : (({ s with lastFc := none } : State).handleFc f).cfg.valid = true := by rw [hq.cfg]; exact hv
         have hexc2 : (({ s with lastFc := none } : State).handleFc f).exc = none := by rw [hq.exc]; exact hexc
-        rcases txTail_inv _ (s.rl.allowedBytes s.cfg.rlBitMax) r0 p k hv2 hfr hexc2 hi2 with h | h
+        rcases txTail_inv _ (s.rl.allowedBytes s.cfg.rlBitMax) r0 p k hv2 hfr hexc2 hi2
+          (by rw [hq.cfg, hq.addr]; exact hen) with h | h
         · exact Or.inl (Advance.of_quiet hq h)
         · exact Or.inr (Failed.of_quiet hq h)
       · exact Or.inr (hab.failed_of_ext (txTail_idle_ext _ _ hab.txState))
 
+
+/-- number of values `startTx` pulls for frame 0: the whole payload for a Single Frame, else the First Frame part -/
+def firstPull (tc : TxCfg) (n : Nat) : Nat := if NeedsFF tc n then ffRoom tc n else n
 
 theorem carried_one (tc : TxCfg) (n : Nat) (hv : ValidTx tc) (hff : NeedsFF tc n) : carried tc n 1 = ffRoom tc n := by
   have := ffRoom_lt tc n hff hv
@@ -986,11 +998,12 @@ theorem carried_one (tc : TxCfg) (n : Nat) (hv : ValidTx tc) (hff : NeedsFF tc n
 
 /-- (C1) `startTx` on a fresh request builds frame 0 of the reference segmentation -/
 theorem startTx_adv (s : State) (r0 : Req) (a : Nat) (p : Bytes) (hv : s.cfg.valid = true) (hfr : Fresh r0 p)
-    (h1 : 1 ≤ p.length) (hn : p.length < 4294967296) :
+    (h1 : 1 ≤ p.length) (hn : p.length < 4294967296)
+    (hen : firstPull (TxCfg.of s.cfg s.addr) p.length ≤ r0.src.length) :
     Advance s (s.startTx r0 a).1 (s.startTx r0 a).2 r0 p 0 := by
   have hvt := valid_of s.cfg s.addr hv
   by_cases hff : NeedsFF (TxCfg.of s.cfg s.addr) p.length
-  · obtain ⟨d0, hd0, h | h⟩ := startTx_ff s r0 a p hv hfr.1 hfr.2 hn hff
+  · obtain ⟨d0, hd0, h | h⟩ := startTx_ff s r0 a p hv hfr.1 hfr.2 hn hff (by simpa [firstPull, hff] using hen)
     · rw [h]; dsimp only
       have hmsg : frameMsg s.cfg s.addr (s.addr.tx.txId .physical) d0 = msgFor s r0 p d0 := by simp [msgFor, arbId, hff]
       refine Or.inr (Or.inl ⟨d0, hd0, by rw [hmsg], Or.inr ⟨Nat.le_refl 1, hff, carried_one_lt _ _ hvt hff, ?_, rfl, rfl,
@@ -1007,7 +1020,7 @@ theorem startTx_adv (s : State) (r0 : Req) (a : Nat) (p : Bytes) (hv : s.cfg.val
       · by_cases he : sfEscape (TxCfg.of s.cfg s.addr) p.length
         · exact Or.inr he
         · exact absurd ⟨hs, he⟩ hff
-    obtain ⟨d0, hseg, h | h⟩ := startTx_sf s r0 a p hv hfr.1 hfr.2 h1 hsf
+    obtain ⟨d0, hseg, h | h⟩ := startTx_sf s r0 a p hv hfr.1 hfr.2 h1 (by simpa [firstPull, hff] using hen) hsf
     · rw [h]; dsimp only
       have hmsg : frameMsg s.cfg s.addr (s.addr.tx.txId r0.tat) d0 = msgFor s r0 p d0 := by simp [msgFor, arbId, hff]
       refine Or.inr (Or.inr ⟨d0, by simp [segOf, hseg], by simp [segOf, hseg], by rw [hmsg],
@@ -1030,7 +1043,8 @@ theorem Fresh.not_depleted {r0 : Req} {p : Bytes} (hfr : Fresh r0 p) (h1 : 1 ≤
 
 theorem txRest_start (s : State) (a : Nat) (r0 : Req) (rest : List Req) (p : Bytes)
     (hv : s.cfg.valid = true) (hfr : Fresh r0 p) (h1 : 1 ≤ p.length) (hn : p.length < 4294967296)
-    (hexc : s.exc = none) (hst : s.txState = .idle) (hq : s.txQueue = r0 :: rest) :
+    (hexc : s.exc = none) (hst : s.txState = .idle) (hq : s.txQueue = r0 :: rest)
+    (hen : firstPull (TxCfg.of s.cfg s.addr) p.length ≤ r0.src.length) :
     Advance s (txRest s a).1 (txRest s a).2.1 r0 p 0 := by
   unfold txRest
   simp only [hst, ne_eq, not_true_eq_false, decide_false, Bool.false_and, Bool.false_eq_true, if_false]
@@ -1039,7 +1053,7 @@ theorem txRest_start (s : State) (a : Nat) (r0 : Req) (rest : List Req) (p : Byt
   rw [hq]
   unfold readTxQueue
   simp only [hfr.not_depleted h1, Bool.false_eq_true, if_false]
-  have h := startTx_adv { s with txQueue := rest, active := some r0 } r0 a p hv hfr h1 hn
+  have h := startTx_adv { s with txQueue := rest, active := some r0 } r0 a p hv hfr h1 hn hen
   generalize State.startTx { s with txQueue := rest, active := some r0 } r0 a = X at h ⊢
   obtain ⟨s1, out⟩ := X
   have hq0 : Quiet s { s with txQueue := rest, active := some r0 } := ⟨rfl, rfl, rfl, [], rfl, NoDone_nil⟩
@@ -1060,14 +1074,16 @@ theorem StillIdle.stop_error (s : State) (e : Err) (_hst : s.txState = .idle) (h
 
 theorem txTail_start (s : State) (a : Nat) (r0 : Req) (rest : List Req) (p : Bytes)
     (hv : s.cfg.valid = true) (hfr : Fresh r0 p) (h1 : 1 ≤ p.length) (hn : p.length < 4294967296)
-    (hexc : s.exc = none) (hst : s.txState = .idle) (hact : s.active = none) (hq : s.txQueue = r0 :: rest) :
+    (hexc : s.exc = none) (hst : s.txState = .idle) (hact : s.active = none) (hq : s.txQueue = r0 :: rest)
+    (hen : firstPull (TxCfg.of s.cfg s.addr) p.length ≤ r0.src.length) :
     Advance s (txTail s a).1 (txTail s a).2.1 r0 p 0 := by
   unfold txTail
   split
   · have hi := StillIdle.stop_error s .FlowControlTimeout hst hact
     exact Advance.of_quiet hi.quiet (txRest_start _ a r0 rest p (by rw [hi.quiet.cfg]; exact hv) hfr h1 hn
-      (by rw [hi.quiet.exc]; exact hexc) hi.txState (by rw [hi.txQueue]; exact hq))
-  · exact txRest_start s a r0 rest p hv hfr h1 hn hexc hst hq
+      (by rw [hi.quiet.exc]; exact hexc) hi.txState (by rw [hi.txQueue]; exact hq)
+      (by rw [hi.quiet.cfg, hi.quiet.addr]; exact hen))
+  · exact txRest_start s a r0 rest p hv hfr h1 hn hexc hst hq hen
 
 /-- a transmit pass of an idle layer whose queue starts with the fresh request `r0` for payload `p`: it builds
     frame 0 of the reference segmentation (emitted, or parked by the rate limiter), unless an Overflow Flow
@@ -1075,14 +1091,15 @@ theorem txTail_start (s : State) (a : Nat) (r0 : Req) (rest : List Req) (p : Byt
 theorem txMain_start (s : State) (r0 : Req) (rest : List Req) (p : Bytes)
     (hv : s.cfg.valid = true) (hfr : Fresh r0 p) (h1 : 1 ≤ p.length) (hn : p.length < 4294967296)
     (hexc : s.exc = none)
-    (hst : s.txState = .idle) (hact : s.active = none) (hq : s.txQueue = r0 :: rest) :
+    (hst : s.txState = .idle) (hact : s.active = none) (hq : s.txQueue = r0 :: rest)
+    (hen : firstPull (TxCfg.of s.cfg s.addr) p.length ≤ r0.src.length) :
     Advance s (txMain s).1 (txMain s).2.1 r0 p 0 ∨ ((txMain s).2.1 = none ∧ StillIdle s (txMain s).1) := by
   unfold txMain
   have hq0 : Quiet s { s with lastFc := none } := ⟨rfl, rfl, rfl, [], rfl, NoDone_nil⟩
   cases hfc : s.lastFc with
   | none =>
     dsimp only
-    exact Or.inl (Advance.of_quiet hq0 (txTail_start { s with lastFc := none } _ r0 rest p hv hfr h1 hn hexc hst hact hq))
+    exact Or.inl (Advance.of_quiet hq0 (txTail_start { s with lastFc := none } _ r0 rest p hv hfr h1 hn hexc hst hact hq hen))
   | some f =>
     dsimp only
     split
@@ -1097,7 +1114,7 @@ theorem txMain_start (s : State) (r0 : Req) (rest : List Req) (p : Bytes)
       rw [hh]
       have hq1 : Quiet s (({ s with lastFc := none } : State).error .UnexpectedFlowControl) :=
         ⟨rfl, rfl, rfl, [Ev.err s.now .UnexpectedFlowControl], rfl, NoDone_err _ _⟩
-      exact Advance.of_quiet hq1 (txTail_start _ _ r0 rest p hv hfr h1 hn hexc hst hact hq)
+      exact Advance.of_quiet hq1 (txTail_start _ _ r0 rest p hv hfr h1 hn hexc hst hact hq hen)
 
 /-! ### frame conditions (C4): the other operations leave the transmit progress alone -/
 
@@ -1448,12 +1465,13 @@ theorem Outcome.of_quiet {s s1 s' : State} {out : Option CanMsg} {r0 : Req} {p :
 /-- (C3) a data pass of `_process_tx` while `k` frames of `p` are out -/
 theorem processTx_inv (s : State) (r0 : Req) (p : Bytes) (k : Nat)
     (hv : s.cfg.valid = true) (hfr : Fresh r0 p) (hexc : s.exc = none) (hfc : FcOk s) (hd : fcPass s = false)
-    (hi : TxInv s r0 p k) :
+    (hi : TxInv s r0 p k)
+    (hen : 1 ≤ k → carried (TxCfg.of s.cfg s.addr) p.length (k + 1) ≤ r0.src.length) :
     Outcome s s.processTx.1 s.processTx.2.1 r0 p k := by
   obtain ⟨s1, he, hsame, hq, -, -⟩ := processTx_data s hfc hd
   rw [he]
   exact Outcome.of_quiet hq (txMain_inv s1 r0 p k (by rw [hq.cfg]; exact hv) hfr (by rw [hq.exc]; exact hexc)
-    (hsame.inv _ _ _ hi))
+    (hsame.inv _ _ _ hi) (by rw [hq.cfg, hq.addr]; exact hen))
 
 theorem StillIdle.of_quiet {s s1 s' : State} (hq : Quiet s s1) (hqq : s1.txQueue = s.txQueue) (h : StillIdle s1 s') :
     StillIdle s s' :=
@@ -1463,12 +1481,14 @@ theorem StillIdle.of_quiet {s s1 s' : State} (hq : Quiet s s1) (hqq : s1.txQueue
 theorem processTx_start (s : State) (r0 : Req) (rest : List Req) (p : Bytes)
     (hv : s.cfg.valid = true) (hfr : Fresh r0 p) (h1 : 1 ≤ p.length) (hn : p.length < 4294967296)
     (hexc : s.exc = none) (hfc : FcOk s) (hd : fcPass s = false)
-    (hst : s.txState = .idle) (hact : s.active = none) (hq : s.txQueue = r0 :: rest) :
+    (hst : s.txState = .idle) (hact : s.active = none) (hq : s.txQueue = r0 :: rest)
+    (hen : firstPull (TxCfg.of s.cfg s.addr) p.length ≤ r0.src.length) :
     Advance s s.processTx.1 s.processTx.2.1 r0 p 0 ∨ (s.processTx.2.1 = none ∧ StillIdle s s.processTx.1) := by
   obtain ⟨s1, he, hsame, hqu, hqq, -⟩ := processTx_data s hfc hd
   rw [he]
   rcases txMain_start s1 r0 rest p (by rw [hqu.cfg]; exact hv) hfr h1 hn (by rw [hqu.exc]; exact hexc)
-    (by rw [hsame.txState]; exact hst) (by rw [hsame.active]; exact hact) (by rw [hqq]; exact hq) with h | ⟨h, h'⟩
+    (by rw [hsame.txState]; exact hst) (by rw [hsame.active]; exact hact) (by rw [hqq]; exact hq)
+    (by rw [hqu.cfg, hqu.addr]; exact hen) with h | ⟨h, h'⟩
   · exact Or.inl (Advance.of_quiet hqu h)
   · exact Or.inr ⟨h, StillIdle.of_quiet hqu hqq h'⟩
 
@@ -1591,17 +1611,33 @@ theorem Advance.pass {s s' : State} {out : Option CanMsg} {r0 : Req} {p : Bytes}
   · exact Or.inr (Or.inl ⟨d, h1, h2, Or.inr h3, h4⟩)
   · exact Or.inr (Or.inr (Or.inl h))
 
+theorem firstPull_le (tc : TxCfg) (hv : ValidTx tc) (n : Nat) : firstPull tc n ≤ n := by
+  unfold firstPull
+  split
+  · rename_i h; exact Nat.le_of_lt (ffRoom_lt tc n h hv)
+  · exact Nat.le_refl n
+
+theorem carried_le (tc : TxCfg) (n k : Nat) : carried tc n k ≤ n := by
+  unfold carried; split <;> omega
+
+/-- the generator yields at least the declared number of values (always the case for a bytes payload) -/
+def Full (r0 : Req) (p : Bytes) : Prop := p.length ≤ r0.src.length
+
 /-- (C3) every data pass of `_process_tx`, from the moment the request is at the head of the queue -/
 theorem processTx_pass (s : State) (r0 : Req) (p : Bytes) (k : Nat)
-    (hv : s.cfg.valid = true) (hfr : Fresh r0 p) (h1 : 1 ≤ p.length) (hn : p.length < 4294967296)
+    (hv : s.cfg.valid = true) (hfr : Fresh r0 p) (hfull : Full r0 p) (h1 : 1 ≤ p.length) (hn : p.length < 4294967296)
     (hexc : s.exc = none) (hfc : FcOk s) (hd : fcPass s = false) (hi : TxInv0 s r0 p k) :
     Pass s s.processTx.1 s.processTx.2.1 r0 p k := by
+  have hen0 : firstPull (TxCfg.of s.cfg s.addr) p.length ≤ r0.src.length :=
+    Nat.le_trans (firstPull_le _ (valid_of s.cfg s.addr hv) _) hfull
+  have hen : 1 ≤ k → carried (TxCfg.of s.cfg s.addr) p.length (k + 1) ≤ r0.src.length :=
+    fun _ => Nat.le_trans (carried_le _ _ _) hfull
   rcases hi with ⟨hk, hst, hact, rest, hq⟩ | hi
   · subst hk
-    rcases processTx_start s r0 rest p hv hfr h1 hn hexc hfc hd hst hact hq with h | ⟨h, h'⟩
+    rcases processTx_start s r0 rest p hv hfr h1 hn hexc hfc hd hst hact hq hen0 with h | ⟨h, h'⟩
     · exact h.pass
     · exact Or.inl ⟨h, Or.inl ⟨rfl, h'.txState, h'.active, rest, by rw [h'.txQueue]; exact hq⟩, h'.quiet⟩
-  · rcases processTx_inv s r0 p k hv hfr hexc hfc hd hi with h | h
+  · rcases processTx_inv s r0 p k hv hfr hexc hfc hd hi hen with h | h
     · exact h.pass
     · exact Or.inr (Or.inr (Or.inr h))
 
@@ -1733,7 +1769,7 @@ theorem Live.of_quiet {s0 s s' : State} (h : Live s0 s) (hq : Quiet s s') (hf : 
     handed to the CAN layer are exactly the next frames of the reference segmentation, in order, until the transfer
     completes (then all of them have been emitted) or fails. -/
 theorem run_segment (s0 : State) (r0 : Req) (p : Bytes) (hv : s0.cfg.valid = true) (hfr : Fresh r0 p)
-    (h1 : 1 ≤ p.length) (hn : p.length < 4294967296) :
+    (hfull : Full r0 p) (h1 : 1 ≤ p.length) (hn : p.length < 4294967296) :
     ∀ (steps : List Step) (s : State) (k : Nat), Live s0 s → TxInv0 s r0 p k → RunRes s0 r0 p k steps s := by
   intro steps
   induction steps with
@@ -1758,7 +1794,7 @@ theorem run_segment (s0 : State) (r0 : Req) (p : Bytes) (hv : s0.cfg.valid = tru
           simp only [run, hd, if_true, Option.toList_none, List.nil_append, hs1]
         · exact hl.of_quiet (afterFcReq_quiet s stt) (by rw [← hs1]; exact hfc')
       · have hd' : fcPass s = false := by simpa using hd
-        rcases processTx_pass s r0 p k hvs hfr h1 hn hl.exc hl.fcOk hd' hi with
+        rcases processTx_pass s r0 p k hvs hfr hfull h1 hn hl.exc hl.fcOk hd' hi with
           ⟨ho, hi1, hq⟩ | ⟨d, hdk, ho, hi1, hq⟩ | ⟨d, hdk, hlen, ho, hfin⟩ | hfail
         · refine RunRes.skip (s1 := s.processTx.1) ?_ (ih _ k (hl.of_quiet hq hfc') hi1)
           intro l
@@ -1812,8 +1848,19 @@ theorem send_accepts (s : State) (a : SendArgs) (h0 : 0 ≤ a.size) (h1 : a.size
 /-- a bytes payload (or a generator that yields at least `size` values) gives a fresh request for its first `size`
     values -/
 theorem reqOf_fresh (s : State) (a : SendArgs) (p : Bytes) (hs : a.size = p.length) (hp : a.src.take p.length = p) :
+    Fresh (reqOf s a) p ∧ Full (reqOf s a) p := by
+  refine ⟨⟨⟨by simp [reqOf, hs], by simp [reqOf], ?_, rfl⟩, rfl⟩, ?_⟩
+  · simp [reqOf, hs, hp]
+  · have := congrArg List.length hp
+    simp only [List.length_take] at this
+    show p.length ≤ a.src.length
+    omega
+
+/-- a generator that ends early: the request streams any completion `p` of what it yields -/
+theorem reqOf_fresh_short (s : State) (a : SendArgs) (p : Bytes) (hs : a.size = p.length) (hp : a.src <+: p) :
     Fresh (reqOf s a) p := by
   refine ⟨⟨by simp [reqOf, hs], by simp [reqOf], ?_, rfl⟩, rfl⟩
-  simp [reqOf, hs, hp]
+  simp only [reqOf, hs, Int.toNat_natCast, Nat.sub_zero, List.drop_zero]
+  exact List.IsPrefix.trans (List.take_prefix _ _) hp
 
 end Isotp.Proofs
